@@ -233,6 +233,18 @@ fn create_doc_for_subexpression_considering_precedence_level(
   }
 }
 
+/// After a field name, the parser reads `<` as the start of explicit type arguments,
+/// so an expression that ends with a field name cannot be directly followed by `<`.
+fn ends_with_field_name(expression: &expr::E<()>) -> bool {
+  match expression {
+    expr::E::FieldAccess(e) => e.explicit_type_arguments.is_none(),
+    expr::E::MethodAccess(e) => e.explicit_type_arguments.is_none(),
+    expr::E::Unary(e) => ends_with_field_name(&e.argument),
+    expr::E::Binary(e) => ends_with_field_name(&e.e2),
+    _ => false,
+  }
+}
+
 fn create_doc_for_if_else(
   heap: &Heap,
   comment_store: &CommentStore,
@@ -625,6 +637,21 @@ fn create_doc_without_preceding_comment(
         Document::Text(e.operator.kind_str()),
         Document::Text(" "),
       ]);
+      if e.operator == expr::BinaryOperator::LT && ends_with_field_name(&e.e1) {
+        // `(a.b) < c` must keep its parentheses: `a.b < c` is parsed as `a.b<c ...>`.
+        return Document::concat(vec![
+          parenthesis_surrounded_doc(create_doc(heap, comment_store, &e.e1)),
+          operator_preceding_comments_docs,
+          operator_doc,
+          create_doc_for_subexpression_considering_precedence_level(
+            heap,
+            comment_store,
+            expression,
+            &e.e2,
+            true,
+          ),
+        ]);
+      }
       if e.e1.precedence() == expression.precedence() {
         // Since we are doing left to right evaluation, this is safe.
         return Document::concat(vec![
